@@ -18,7 +18,11 @@ def trunc (s : String) (n : Nat) : String := if s.length > n then (s.take n).toS
 
 def oracleFor (prop : String) (o : Opts) (env : Env) (inN outN : Node) (diags : List String) : Verdict :=
   let _ := (o, env, diags)
-  if prop == "C02" then oracleC02 o inN outN
+  if prop == "C02" then
+    match oracleC02 o inN outN with
+    | .ok => oracleSem prop o env inN outN
+    | v => v
+  else if ["C01", "C03", "C04", "C05"].contains prop then oracleSem prop o env inN outN
   else .skip "no-oracle"
 
 /-- unit lines: `(unit 'fn 'arg 'implResult)` -/
